@@ -319,6 +319,8 @@ def h_tid_monotonic(c1: int, c2: int, c3: int, c4: int, storage: str) -> None:
     reached()
 
 
+from zverif.harness.c16 import h_load_before as _demo_load_before  # noqa: E402  (DemoStorage is one of the bundled storages)
+
 _FILE_Q = ['T1', 'T2', 'T4', 'T6']
 _FILE_ALL = ['T1', 'T2', 'T3', 'T4', 'T5', 'T6', 'T10']
 
@@ -396,6 +398,13 @@ HARNESSES = [
             code=['FileStorage.record_iternext', 'fsIndex.minKey'],
             quick=dict(timeout=60, shards=shards(template=['T2', 'T6'], reopen=[0])),
             thorough=dict(timeout=300, shards=shards(template=_FILE_ALL, reopen=[0, 2]))),
+    Harness('demo_load_before', _demo_load_before,
+            decides='loadBefore on a DemoStorage (changes over base) answers from the joined history of both layers',
+            symbolic='oid (last byte free), tid (8 free bytes)', bounds='see C16 (same harness): 2 layers, 5 transactions',
+            oracle='RevStore over both layers', pure_python=True, code=['DemoStorage.loadBefore'],
+            quick=dict(timeout=150, shards=[dict(base_kind='mapping', changes_kind='file', depth=1)]),
+            thorough=dict(timeout=600, shards=[dict(base_kind='mapping', changes_kind='file', depth=1),
+                                               dict(base_kind='file', changes_kind='mapping', depth=2)])),
     Harness('tid_monotonic', h_tid_monotonic,
             decides='transaction ids strictly increase whatever the clock returns (stalls, steps back)',
             symbolic='4 consecutive clock readings (free 63-bit integers)',
